@@ -74,9 +74,8 @@ def run(ctx):
     # ------------------------------------------------------------------ R2
     ctx.rule("C06.R2", "one default origin on both sides", floor=2)
     tf = ctx.fn("lace::runtime::RunEnvironment::try_from")
-    d_run = [const_int(t["args"][1]) for b, t, c in tf.calls() if c and c.endswith("Option::<T>::unwrap_or") and tf.local_ty(t["dest"]["l"]) == "u16"]
-    d_cmp = [const_int(t["args"][0]) for b, t, c in conv_w if const_int(t["args"][0]) is not None]
-    d_cmp += [const_int(t["args"][1]) for b, t, c in main.calls() if b in region and c and c.endswith("Option::<T>::unwrap_or") and main.local_ty(t["dest"]["l"]) == "u16"]
+    d_run = sorted(set(kit.default_origins(prog, tf)))
+    d_cmp = sorted(set(kit.default_origins(prog, main, region)))
     ctx.instance(2, {"run": [hex(x) for x in d_run], "compile": [hex(x) for x in d_cmp]})
     ok = d_run == [0x3000] and d_cmp == [0x3000]
     ctx.oblig(ok)
